@@ -40,6 +40,9 @@ UpMap == [c \in LowerLetters |->
 UpCh(c) == IF c \in LowerLetters THEN UpMap[c] ELSE c
 RECURSIVE Upper(_)
 Upper(s) == IF s = "" THEN "" ELSE UpCh(Ch(s,1)) \o Upper(Tail(s))
+LowCh(c) == IF c \in UpperLetters THEN (CHOOSE l \in LowerLetters : UpMap[l] = c) ELSE c
+RECURSIVE Lower(_)
+Lower(s) == IF s = "" THEN "" ELSE LowCh(Ch(s,1)) \o Lower(Tail(s))
 \* ASCII blank stripping (drivers restrict padding to the space character)
 RECURSIVE LStrip(_)
 LStrip(s) == IF s # "" /\ Ch(s,1) = " " THEN LStrip(Tail(s)) ELSE s
